@@ -107,7 +107,7 @@ func GenOps(r *hx.Rng, n int, closeOK bool) []Op {
 				o.L.T = o.Key
 			}
 			if r.Chance(1, 20) {
-				o.L.T = BadEmpty + r.Intn(2) // a target ref that cannot be committed: "" or oversized
+				o.L.T = BadEmpty // a target ref that cannot be committed: the empty string
 			}
 			t.nextID++
 			if o.MOK {
@@ -139,7 +139,7 @@ func GenOps(r *hx.Rng, n int, closeOK bool) []Op {
 			}
 			o = Op{Op: "commit", Key: k, Name: t.fresh(r), L: labels()}
 			if r.Chance(1, 25) {
-				o.Name = BadEmpty + r.Intn(2)
+				o.Name = BadEmpty
 			}
 			if t.kind[k] == 1 {
 				if _, ex := t.kind[o.Name]; !ex {
